@@ -74,7 +74,7 @@ def gen_instance(rng, allow_ext=True):
     elif kind == 'gp':
         inst = gen.gen_gp(rng)
     elif kind == 'op':
-        inst = gen.gen_op(rng)
+        inst = gen_model(rng) if rng.random() < 0.6 else gen.gen_op(rng)
     else:
         if kind in ('lp', 'qp'):
             dims = {'l': rng.randint(2, 7), 'q': [], 's': []}
@@ -127,7 +127,112 @@ def gen_instance(rng, allow_ext=True):
     return inst
 
 
+def gen_model(rng):
+    """an op with several constraint objects over several variables, piecewise-linear parts included
+    (the pool language of opsim): op.solve() is one of the property's entry points, and what it
+    shares with other models lives in the modeling layer, not in the solvers"""
+    from engines import opsim
+    pool = opsim.gen_pool(rng)
+    nv = len(pool['variables'])
+    sel = list(range(2 * nv)) + [i for i in range(2 * nv, len(pool['constraints'])) if rng.random() < 0.6]
+    if rng.random() < 0.3:
+        sel.append(rng.choice(sel[2 * nv:] or sel))      # the same constraint object twice
+    rng.shuffle(sel)
+    objs = [i for i, o in enumerate(pool['objectives']) if opsim.obj_valid(o)]
+    return {'kind': 'op', 'model': pool, 'cons': sel, 'obj': rng.choice(objs), 'format': rng.choice(['dense', 'sparse']),
+            'n': sum(v['n'] for v in pool['variables']), 'p': 0, 'dims': {'l': len(sel), 'q': [], 's': []}}
+
+
+def solve_model(inst, options=None, solver='default'):
+    from cvxopt import modeling
+    from engines import opsim
+    vs, cons, objective = opsim.build(inst['model'])
+    used = [cons[i] for i in inst['cons']]
+    prob = modeling.op(objective(inst['model']['objectives'][inst['obj']]), used)
+    kw = {}
+    if options is not None:
+        kw['options'] = options
+    prob.solve(inst.get('format', 'dense'), solver, **kw)
+    return {'status': prob.status, 'x': [v.value for v in vs], 'multipliers': [c.multiplier.value for c in used],
+            'objective': prob.objective.value()}
+
+
+_JUNK = []
+
+
+def model_noise(seed):
+    """modelling activity that has nothing to do with any of the solves: functions over its own
+    variables, in-place scaling and shifting, constraints, an op that is never solved.  Some of the
+    objects stay alive for a while, so that later objects live at other addresses."""
+    from cvxopt import matrix, modeling as M
+    rng = random.Random(seed)
+    n = rng.randint(1, 3)
+    x, y = M.variable(n, 'nx'), M.variable(1)
+    keep = [x, y]
+    lin = []
+    for _ in range(rng.randint(2, 6)):
+        r = rng.randrange(11)
+        a = rng.choice([2.0, 0.5, -1.5, 3, 4.0])
+        if r == 0:
+            f = +x
+            f *= a
+            lin.append(f)
+        elif r == 1:
+            f = -x
+            f *= a
+            lin.append(f)
+        elif r == 2:
+            f = abs(x)
+            f *= abs(a)
+        elif r == 3:
+            f = M.max(x, y)
+            f *= abs(a)
+        elif r == 4:
+            f = +y
+            f /= a
+            lin.append(f)
+        elif r == 5:
+            f = x + y
+            f += x
+            f -= 1.0
+            lin.append(f)
+        elif r == 6:
+            f = M.sum(abs(x))
+            f *= 2.0
+            f += y
+        elif r == 7:
+            f = M.min(x, 1.0)
+            f *= 0.5
+        elif r == 8:
+            f = M.dot(matrix(1.0, (n, 1)), x)
+            f *= a
+            f /= 2.0
+            lin.append(f)
+        elif r == 9:
+            f = x[0]
+            f *= a
+            f += 2.0 * y
+            lin.append(f)
+        else:
+            x.value = matrix([float(i) for i in range(n)])
+            y.value = matrix(a, tc='d')
+            f = (abs(x) + y)
+            f.value()
+        keep.append(f)
+    cs = [(f <= 1.0) for f in lin] + [x >= -2.0, y == 0.25]
+    for c in cs:
+        c.name = 'noise'
+    pr = M.op(M.sum(x) + y, cs)
+    pr.variables(), pr.constraints(), pr.inequalities(), pr.equalities()
+    keep += cs + [pr]
+    _JUNK.append(keep)
+    if len(_JUNK) > 24:
+        del _JUNK[rng.randrange(len(_JUNK))]
+
+
 def materialise(inst):
+    if 'model' in inst:
+        return {'format': inst['format']}
     m = gen.materialise(inst, F=False if inst['kind'] in ('cpl', 'cp') else None)
     if inst['kind'] == 'gp':
         m['F'] = gen.M(inst['F'])
@@ -163,6 +268,8 @@ def do_call(inst, m, options):
         m = prepare(inst, m)
     if k == 'gp':
         return gen.solve_gp(inst, m, options)
+    if k == 'op' and 'model' in inst:
+        return solve_model(inst, options, solver=inst.get('solver') or 'default')
     if k == 'op':
         return gen.solve_op(inst, m, options, solver=inst.get('solver') or 'default')
     extra = {'solver': inst['solver']} if inst.get('solver') else None
@@ -282,6 +389,8 @@ def gen_case(rng, tier='quick'):
                 ops.append(['del', rng.choice(list(VALID) + ['kktreg', 'glpk', 'dsdp'])])
             elif r < 0.40:
                 ops.append(['clear'])
+            elif r < 0.47:
+                ops.append(['noise', rng.getrandbits(24)])
             elif r < 0.75:
                 i_ = rng.randrange(ninst)
                 ops.append(['solve', i_, add_nested(rng, gen_opts(rng), insts[i_]) if rng.random() < 0.6 else None])
@@ -303,6 +412,8 @@ def gen_case(rng, tier='quick'):
             ops = []
             for _ in range(rng.randint(1, 3)):
                 if rng.random() < 0.12:
+                    ops.append(['noise', rng.getrandbits(24)])
+                if rng.random() < 0.12:
                     ops.append(['solve', rng.randrange(ninst), gen_bad_opts(rng)])
                 else:
                     i_ = rng.randrange(ninst)
@@ -323,8 +434,10 @@ def gen_case(rng, tier='quick'):
                 elif r < 0.7:
                     k, v = rng.choice(INVALID)
                     ops.append(['set', k, v])
-                elif r < 0.9:
+                elif r < 0.85:
                     ops.append(['del', rng.choice(list(VALID) + ['kktreg'])])
+                elif r < 0.93:
+                    ops.append(['noise', rng.getrandbits(24)])
                 else:
                     ops.append(['clear'])
             case['churn'] = len(clients)
@@ -476,6 +589,7 @@ def run_case(case, refs=None):
     solvers.options.clear()
     gmodel = {}
     gops = []     # global-option operations in executed order
+    noise = [0]
 
     def body_for(ci):
         ops = clients[ci]
@@ -511,6 +625,12 @@ def run_case(case, refs=None):
                     o['cdiff'] = O.CState.diff(cst0, _CSTATE[0].snapshot())
                     o['globals_same'] = O.bits(dict(solvers.options)) == gl0
                     obs[ci][oi] = o
+                elif op[0] == 'noise':
+                    model_noise(op[1])
+                    if not refs.fork:
+                        refs.history.append(['noise', op[1]])
+                    noise[0] += 1
+                    obs[ci][oi] = {'kind': 'noise'}
                 else:
                     apply_global(solvers.options, op)
                     apply_global(gmodel, op)
@@ -668,6 +788,7 @@ def run_case(case, refs=None):
         bump('fault.global_option_changes', nchanges)
     bump('fault.failing_calls', sum(1 for ci, ops in enumerate(clients) for oi, op in enumerate(ops)
                                     if op[0] == 'solve' and obs[ci][oi] and obs[ci][oi].get('kind') == 'exc'))
+    bump('fault.unrelated_modelling_activity_ops', noise[0])
     bump('steps', sch.step)
     bump('solves', nsolves)
     bump('policy.' + case['policy']['kind'] if case.get('schedule') is None else 'policy.replay')
@@ -715,7 +836,11 @@ def run_refhistory(case):
     from cvxopt import solvers
     val = None
     log = core.Log()
-    for inst, kw, g in case['calls']:
+    for call in case['calls']:
+        if call[0] == 'noise':
+            model_noise(call[1])
+            continue
+        inst, kw, g = call
         val = _reference_child(inst, kw, g)
         solvers.options.clear()
         log.add('ref', val[0], val[1])
